@@ -297,14 +297,15 @@ class Interp:
 
     def from_aff(self, ty, a, b):
         w = TY[ty][0]
-        m0, m1 = a * self.y0 + b, a * self.y1 + b
-        lo, hi = min(m0, m1), max(m0, m1)
-        k = (lo - tmin(ty)) >> w
-        if hi - (k << w) <= tmax(ty):
-            b -= k << w
-            lo -= k << w
-            hi -= k << w
-            return AI(ty, lo, hi, "up" if a > 0 else "down" if a < 0 else "c", (a, b))
+        # the value is a*y + b modulo 2^w: any representative of the slope modulo 2^w describes it (254*y = -2*y in eight bits)
+        am = a % (1 << w)
+        for aa in ((a,) if abs(a) < (1 << (w - 1)) else ()) + (am, am - (1 << w)):
+            m0, m1 = aa * self.y0 + b, aa * self.y1 + b
+            lo, hi = min(m0, m1), max(m0, m1)
+            k = (lo - tmin(ty)) >> w
+            if hi - (k << w) <= tmax(ty):
+                bb = b - (k << w)
+                return AI(ty, lo - (k << w), hi - (k << w), "up" if aa > 0 else "down" if aa < 0 else "c", (aa, bb))
         return self.top(ty, (a % (1 << w), b % (1 << w)))
 
     def norm(self, ty, lo, hi, dir=None, aff=None):
@@ -752,10 +753,10 @@ class Interp:
         if op == "Not":
             if signed:
                 return AI(ty, -x.hi - 1, -x.lo - 1, flip(x.dir), (-x.aff[0], -x.aff[1] - 1) if x.aff else None) if x.dir is not None or not x.aff \
-                    else self.norm(ty, 0, 0, None, (-x.aff[0], -x.aff[1] - 1))
+                    else self.from_aff(ty, -x.aff[0], -x.aff[1] - 1)
             m = tmax(ty)
             if x.dir is None and x.aff:
-                return self.norm(ty, 0, 0, None, (-x.aff[0], -x.aff[1] - 1))
+                return self.from_aff(ty, -x.aff[0], -x.aff[1] - 1)
             return AI(ty, m - x.hi, m - x.lo, flip(x.dir), (-x.aff[0], m - x.aff[1]) if x.aff else None)
         if op == "Neg":
             if x.lo == tmin(ty) and signed:
